@@ -1,6 +1,6 @@
 (* Entry point of the extracted model for the correspondence check: one function from
    (function id, arguments) to the canonical observation string the Go harness records. *)
-From Wire Require Import Base.Bytes Model.Converters Model.Validators.
+From Wire Require Import Base.Bytes Model.Converters Model.Validators Spec.Faim.
 
 Definition str (s : string) : bytes := list_byte_of_string s.
 
@@ -16,3 +16,27 @@ Definition run (fn : bytes) (args : list bytes) : bytes :=
   let '(kind, name) := split_colon fn [] in
   if bytes_eqb kind (bs "validator") then res_err (run_validator (string_of_list_byte name) args)
   else bs "unknown-function".
+
+(* ---- the property oracle: what the specification says the implementation's observation
+        must be. None = the specification does not decide this observation. ---- *)
+Definition verdict_of (b : bool) : bytes := if b then bs "ok" else bs "reject".
+
+Definition spec_validator (name : string) (args : list bytes) : option bool :=
+  let s := arg0 args in
+  if String.eqb name "isAlphanumeric" then Some (forallb faim_char s)
+  else if String.eqb name "isNumeric" then Some (forallb is_digit s)
+  else if String.eqb name "isAmountImplied" then Some (forallb is_digit s)
+  else if String.eqb name "isAmount" then Some (forallb amount_char s)
+  else if String.eqb name "validateDate" then Some (date_ok s)
+  else if String.eqb name "validatePartyIdentifier" then Some (party_identifier_ok s)
+  else if String.eqb name "validateOptionFLine" then Some (option_f_line_ok s)
+  else if String.eqb name "validateOptionFName" then Some (option_f_name_ok s)
+  else match assoc name Spec.Faim.code_lists with
+       | Some l => Some (mem_bytes s l)
+       | None => None
+       end.
+
+Definition oracle (fn : bytes) (args : list bytes) : option bytes :=
+  let '(kind, name) := split_colon fn [] in
+  if bytes_eqb kind (bs "validator") then option_map verdict_of (spec_validator (string_of_list_byte name) args)
+  else None.
